@@ -239,12 +239,31 @@ def rule_label_alignment(ctx, R="R-label-alignment"):
                 why = f"zip({', '.join(args)}): the label list puts str_nan last, the groups are not laid out the same way (a group appended after str_nan swaps labels with it)"
         ok = nan_last
         par = cfg.parent(z)
-        if ok and isinstance(par, ast.For) and isinstance(par.target, ast.Tuple):
-            g = unparse(par.target.elts[0])
-            inner = [n for n in ast.walk(par) if isinstance(n, ast.For) and n is not par]
-            ok = any(unparse(n.iter) in (f"values.get({g})", f"values.content[{g}]", f"values.content.get({g})") for n in inner)
+        if ok:
+            # every member of the k-th group gets label k, unconditionally: nested loops or one
+            # comprehension over (zip(groups, labels), values.get(group)) without any filter
+            members_ok = False
+            why_m = "members of a group are not read through values.get(<leader>)"
+            if isinstance(par, ast.For) and isinstance(par.target, ast.Tuple):
+                g = unparse(par.target.elts[0])
+                inner = [n for n in ast.walk(par) if isinstance(n, ast.For) and n is not par and unparse(n.iter) in (f"values.get({g})", f"values.content[{g}]", f"values.content.get({g})")]
+                if inner:
+                    filtered = [n for n in ast.walk(par) if isinstance(n, (ast.If, ast.IfExp, ast.Continue, ast.Break))]
+                    members_ok = not filtered
+                    if filtered:
+                        why_m = "a member of a group can be skipped: every value of the k-th group must receive label k (a value without label passes through transform unlabelled)"
+            elif isinstance(par, ast.comprehension):
+                comp = cfg.parent(par)
+                if isinstance(comp, ast.DictComp) and len(comp.generators) == 2 and comp.generators[0] is par and isinstance(par.target, ast.Tuple):
+                    g = unparse(par.target.elts[0])
+                    g2 = comp.generators[1]
+                    if unparse(g2.iter) in (f"values.get({g})", f"values.content[{g}]", f"values.content.get({g})") and unparse(comp.key) == unparse(g2.target) and unparse(comp.value) == unparse(par.target.elts[1]):
+                        members_ok = not par.ifs and not g2.ifs
+                        if not members_ok:
+                            why_m = "a member of a group can be skipped: every value of the k-th group must receive label k (a value without label passes through transform unlabelled)"
+            ok = members_ok
             if not ok:
-                why = "members of a group are not read through values.get(<leader>)"
+                why = why_m
     ok = ok and unparse(defs.get("values", ast.Constant(None))) == "self.values_orders[feature]"
     ctx.ob(R, construct(fi, "label k is given to the members of the k-th group of the list order (missing values last, like the labels)"), ok, loc(fi, zips[0] if zips else None), "" if ok else why)
     # nowhere in the package is the insertion order of `content` used positionally
@@ -416,6 +435,7 @@ MUTANTS = [
     M("OrdinalDiscretizer stores the merged orders after the label table", [(F_QUAL, "        # discretizing features based on each feature's values_order\n        super().fit(x_copy, y)\n\n        return self\n\n\nclass ChainedDiscretizer", "        # discretizing features based on each feature's values_order\n        super().fit(x_copy, y)\n        self.values_orders.update(known_orders)\n\n        return self\n\n\nclass ChainedDiscretizer")], "R-labels-last", "OrdinalDiscretizer.fit", quick=True),
     M("StringDiscretizer never builds labels", [(F_TYPE, "        # discretizing features based on each feature's values_order\n        super().fit(X, y)\n", "        self.is_fitted = True\n")], "R-labels-last", "StringDiscretizer.fit"),
     M("Discretizer builds labels only when verbose", [(F_DISC, "        # discretizing features based on each feature's values_order\n        super().fit(X, y)\n\n        return self\n\n\nclass QualitativeDiscretizer", "        # discretizing features based on each feature's values_order\n        if self.verbose:\n            super().fit(X, y)\n\n        return self\n\n\nclass QualitativeDiscretizer")], "R-labels-last", "Discretizer.fit"),
+    M("str_default left without label", [(F_BASE, "                for value in values.get(group_of_values):\n                    label_per_value.update({value: label})\n", "                for value in values.get(group_of_values):\n                    if value != self.str_default:\n                        label_per_value.update({value: label})\n")], "R-label-alignment", "label k is given"),
     M("labels paired with groups in content (dict) order", [(F_BASE, "            for group_of_values, label in zip(groups, labels):\n                for value in values.get(group_of_values):\n                    label_per_value.update({value: label})\n", "            for group_values, label in zip(values.content.values(), labels):\n                label_per_value.update({value: label for value in group_values})\n")], "R-label-alignment", quick=True),
     M("D24-reverted: labels paired with the raw list order although str_nan is labelled last", [(F_BASE, "            for group_of_values, label in zip(groups, labels):", "            for group_of_values, label in zip(values, labels):")], "R-label-alignment", quick=True),
     M("labels filter differs from masks filter", [(F_BASE, "        [labels_per_values[feature][value]] * x_len for value in feature_values if value != str_nan\n", "        [labels_per_values[feature][value]] * x_len for value in feature_values\n")], "R-interval-lookup", "mask k"),
